@@ -42,7 +42,7 @@ RULE = (
 )
 LEVEL_TEXT = (
     "Seeded search over prior histories of everything that shares the three global RNGs and the re-seeding side effects of config construction/loading, in K interpreters with different PYTHONHASHSEED plus truly fresh interpreters; each probe must reproduce the golden digest of a pristine process bit for bit, filtered probes must equal the filter reference model applied to the golden unfiltered dataset, and the caller's configuration object must be untouched. Noise includes near neighbours of the target generated beforehand, exceptions in the middle of earlier operations and a few long histories; targets include float-proportion arguments, sizes up to 10000 mazes and default-argument probes; one interpreter slot in three runs under python -O. Sampling, not proof.",
-    "Trusted: sha256; filter reference model of C08; configurations with seed=None are excluded (their seed is drawn from OS entropy, which no simulator owns). Calling generate() from inside a multiprocessing worker is outside the property's history list.",
+    "Trusted: sha256; filter reference model of C08; configurations with seed=None are excluded (their seed is drawn from OS entropy, which no simulator owns). One history in five runs in a process that is itself a worker of a pool the caller runs (non-empty multiprocessing identity): serial generation there must give the same dataset as in a main process.",
 )
 
 
@@ -97,7 +97,9 @@ def st_history(spec, golden):
 
     events: list = []
     stats: dict = {}
-    world = spool.PoolWorld(spec["seed"], "fork", 3, 1)
+    # S-PROC: the process the history runs in may be a worker of a multiprocessing pool that the *caller* runs (one dataset
+    # per task, generated serially in each worker): "another process" in the statement's words
+    world = spool.PoolWorld(spec["seed"], "fork", 3, 1, base_identity=(spec["proc_identity"],) if spec.get("proc_identity") else ())
     T = spec["cfg"]
     cfg_T = None
     others: list = []
@@ -106,6 +108,9 @@ def st_history(spec, golden):
 
     def bump(k):
         stats[k] = stats.get(k, 0) + 1
+
+    if spec.get("proc_identity"):
+        bump("probe_history_in_a_callers_pool_worker")
 
     def expect_filtered():
         recs = golden["records"]
@@ -408,7 +413,10 @@ def gen_specs(rng: random.Random, tier: str, n: int) -> list[dict]:
                     for _ in range(rng.randint(0, 3)):
                         ops.append(rand_noise(rng, T))
                     ops.append(["probe", rng.choice(["generate", "generate-default", "from_config"])])
-                specs.append({"seed": rng.getrandbits(48), "cfg": T, "ops": ops, "slot": slot})
+                s = {"seed": rng.getrandbits(48), "cfg": T, "ops": ops, "slot": slot}
+                if len(specs) % 5 == 2:
+                    s["proc_identity"] = [1, 2, 3, 7, 40][(len(specs) // 5) % 5]
+                specs.append(s)
     # one very large dataset (sizes are a dimension of their own: 100 selects another storage format, 1000 another file-name
     # abbreviation; anything that switches behaviour at "big" must still give the serial result by default)
     Th = {"name": "huge", "grid_n": 2, "n_mazes": 10000, "maze_ctor": "gen_dfs", "maze_ctor_kwargs": {}, "endpoint_kwargs": {}, "seed": rng.choice([42, 7]), "applied_filters": []}
@@ -425,6 +433,8 @@ def shrink(spec: dict, result: dict):
     for i in range(len(ops)):
         if ops[i][0] != "probe" or sum(1 for o in ops if o[0] == "probe") > 1:
             yield dict(spec, ops=ops[:i] + ops[i + 1 :])
+    if spec.get("proc_identity"):
+        yield {k: v for k, v in spec.items() if k != "proc_identity"}
     T = spec["cfg"]
     for fld, val in (("applied_filters", []), ("endpoint_kwargs", {}), ("maze_ctor_kwargs", {}), ("n_mazes", max(1, T["n_mazes"] // 2)), ("grid_n", max(2, T["grid_n"] - 1)), ("name", "t")):
         if T.get(fld) != val:
@@ -435,4 +445,4 @@ def shrink(spec: dict, result: dict):
 
 
 def sample_of(spec, result):
-    return {"cfg": spec["cfg"], "slot": spec.get("slot"), "ops": [[o[0]] + [x if not isinstance(x, dict) else "<cfg>" for x in o[1:]] for o in spec["ops"]], "fresh": spec.get("fresh"), "digest": result.get("digest")}
+    return {"cfg": spec["cfg"], "slot": spec.get("slot"), "proc_identity": spec.get("proc_identity"), "ops": [[o[0]] + [x if not isinstance(x, dict) else "<cfg>" for x in o[1:]] for o in spec["ops"]], "fresh": spec.get("fresh"), "digest": result.get("digest")}
